@@ -10,6 +10,7 @@ import (
 
 func init() {
 	properties["C18"] = &Property{Gen: genC18, Run: runC18}
+	opRunners["xserve"] = runC18
 }
 
 // runXServe serves one scripted connection on the bundled example server and returns the replies.
